@@ -13,27 +13,33 @@ use yata::core::{Candle, IndicatorResult};
 #[derive(Clone)]
 struct CSt {
 	orig: Box<dyn Subject>,
-	twin: Box<dyn Subject>,
+	/// parameters, construction value and the inputs so far: the twin is REBUILT from these at every step
+	/// (the explorer itself branches by cloning states, so a twin carried in the state would go through
+	/// the same Clone implementation as the instance under test)
+	par: usize,
+	v0: In,
+	hist: Vec<In>,
 }
 struct CloneSys {
 	spec_name: &'static str,
 	params: Vec<Params>,
 	alphabet: Vec<In>,
 	peekable: bool,
+	tag: &'static str,
 }
 impl System for CloneSys {
 	type State = CSt;
 	type Act = In;
 	fn name(&self) -> String {
-		format!("{}/clone+twin+peek", self.spec_name)
+		format!("{}/clone+twin+peek{}", self.spec_name, self.tag)
 	}
 	fn inits(&self) -> Vec<(CSt, String)> {
 		let sp = spec(self.spec_name);
 		let mut v = vec![];
-		for p in &self.params {
+		for (pi, p) in self.params.iter().enumerate() {
 			for v0 in &self.alphabet[..2] {
-				let (Ok(Ok(a)), Ok(Ok(b))) = (catch(|| (sp.ctor)(p, v0)), catch(|| (sp.ctor)(p, v0))) else { continue };
-				v.push((CSt { orig: a, twin: b }, format!("{}({}) v0={}", self.spec_name, p.show(), v0.show())));
+				let Ok(Ok(a)) = catch(|| (sp.ctor)(p, v0)) else { continue };
+				v.push((CSt { orig: a, par: pi, v0: *v0, hist: vec![] }, format!("{}({}) v0={}", self.spec_name, p.show(), v0.show())));
 			}
 		}
 		v
@@ -59,7 +65,16 @@ impl System for CloneSys {
 			Ok(o) => o,
 			Err(_) => return Step::Prune,
 		};
-		let o2 = match catch(|| n.twin.next(x)) {
+		n.hist.push(*x);
+		let sp = spec(name);
+		let o2 = match catch(|| {
+			let mut twin = (sp.ctor)(&self.params[n.par], &n.v0).unwrap();
+			let mut o = None;
+			for y in &n.hist {
+				o = Some(twin.next(y));
+			}
+			o.unwrap()
+		}) {
 			Ok(o) => o,
 			Err(p) => return Step::Violation(Failure::new(format!("{name}/twin/panic"), p.msg)),
 		};
@@ -73,6 +88,9 @@ impl System for CloneSys {
 		if !o1.same_bits(&o3) {
 			return Step::Violation(Failure::new(format!("{name}/clone/continues-differently"), format!("original -> {}, clone -> {}", o1.show(), o3.show())));
 		}
+		// the CLONE is what lives on (clone of a clone of ... along the path); the twin is the lineage that
+		// was never cloned
+		n.orig = c_same;
 		if self.peekable {
 			match catch(|| n.orig.peek()) {
 				Ok(Some(p)) => {
@@ -193,12 +211,13 @@ struct IndSys {
 	cfgs: Vec<Box<dyn IndCfg>>,
 	alphabet: Vec<Candle>,
 	maxlen: usize,
+	tag: &'static str,
 }
 impl System for IndSys {
 	type State = ISt;
 	type Act = usize;
 	fn name(&self) -> String {
-		"Indicators/clone+twin+over+fn".into()
+		format!("Indicators/clone+twin+over+fn{}", self.tag)
 	}
 	fn inits(&self) -> Vec<(ISt, String)> {
 		let mut v = vec![];
@@ -244,6 +263,8 @@ impl System for IndSys {
 			Ok(o3) => return Step::Violation(Failure::new(format!("{name}/clone/continues-differently"), format!("{o1:?} vs {o3:?}"))),
 			Err(p) => return Step::Violation(Failure::new(format!("{name}/clone/panic"), p.msg)),
 		}
+		// the clone lives on, the twin is the never-cloned lineage
+		n.orig = c_same;
 		n.hist.push(c);
 		n.outs.push(rbits(&o1));
 		// batch forms over the whole history so far (history[0] is the construction candle, also fed? no:
@@ -293,14 +314,33 @@ impl System for IndSys {
 	}
 }
 
+fn scaled(c: &Candle, k: f64) -> Candle {
+	let k = k as ValueType;
+	Candle { open: c.open * k, high: c.high * k, low: c.low * k, close: c.close * k, volume: c.volume * k }
+}
+fn mixed_candles() -> Vec<Candle> {
+	let k = alpha::k_candles();
+	vec![scaled(&k[5], 0.001), k[5], scaled(&k[2], 3.73)]
+}
+fn mixed(k: InKind) -> Vec<In> {
+	match k {
+		InKind::Value => vec![In::V(0.001), In::V(1.7), In::V(37.3), In::V(0.33)],
+		InKind::Pair => vec![In::P(0.001, 1.7), In::P(37.3, 0.3), In::P(1.7, 11.1), In::P(0.33, 0.7)],
+		InKind::Candle => mixed_candles().into_iter().map(In::C).collect(),
+	}
+}
+
 fn main() {
 	let mut h = H::start("C09");
 	let thorough = h.thorough();
 	for sp in registry() {
 		let name: &'static str = sp.name;
 		let al = inputs(sp.input);
-		let sys = CloneSys { spec_name: name, params: small_params(&sp), alphabet: al[..3].to_vec(), peekable: sp.peekable };
+		let sys = CloneSys { spec_name: name, params: small_params(&sp), alphabet: al[..3].to_vec(), peekable: sp.peekable, tag: "" };
 		h.go(&sys, &Limits::depth(if thorough { 7 } else { 5 }).wall_secs(300), true);
+		// rounding-active values of mixed magnitudes: any re-ordering of a summation shows in the last bit
+		let sys = CloneSys { spec_name: name, params: small_params(&sp), alphabet: mixed(sp.input), peekable: sp.peekable, tag: "/mixed-magnitudes" };
+		h.go(&sys, &Limits::depth(if thorough { 8 } else { 6 }).wall_secs(300), true);
 	}
 	h.enum_replay("Methods/api", |_| None);
 	if !h.is_replay() {
@@ -308,7 +348,10 @@ fn main() {
 	}
 	let ks = alpha::k_candles();
 	let d = if thorough { 5 } else { 4 };
-	h.go(&IndSys { cfgs: defaults(), alphabet: ks[..3].to_vec(), maxlen: d }, &Limits::depth(d as u32).wall_secs(600), true);
+	h.go(&IndSys { cfgs: defaults(), alphabet: ks[..3].to_vec(), maxlen: d, tag: "" }, &Limits::depth(d as u32).wall_secs(600), true);
+	// small periods (windows rotate within the depth) and candles of mixed magnitudes
+	let small: Vec<Box<dyn IndCfg>> = defaults().iter().flat_map(|c| checks::indcheck::indicator_configs(Some(c.const_name()), false).into_iter().skip(1)).collect();
+	h.go(&IndSys { cfgs: small, alphabet: mixed_candles(), maxlen: d + 2, tag: "/small-periods/mixed-magnitudes" }, &Limits::depth(d as u32 + 2).wall_secs(600), true);
 	h.run.assume("a twin instance driven by `next` only is the oracle; WithLastValue feeds the construction value once before the stream, so its outputs may equal either the plain twin's or those of a twin that was fed the construction value first (their agreement is C08)");
 	h.finish();
 }
